@@ -55,7 +55,7 @@ reg('C12', [('verus', 'jitter')], level='proof', trusted_base=TB_COMMON + TB_JIT
     assumptions=['number of timer readings: the postconditions quantify exactly the readings that can influence the state; the count itself is decided by Kani harnesses on the real code (thorough tier)'])
 reg('C13', [('verus', 'jitter')], level='proof', trusted_base=TB_COMMON + TB_JIT,
     explanation='test_timer carries `exists log. tt_post(log, r)`: Ok(r) only if no failure condition holds on the probe log, 1<=r<=128 and r*bitlen(mean)>=128; Err(e) only if cond(e) holds')
-reg('C14', [('verus', 'xoshiro'), ('verus', 'xorshift'), ('verus', 'jitter'), ('verus', 'hc128')], level='proof', trusted_base=TB_COMMON + TB_RC + TB_JIT,
+reg('C14', [('verus', 'xoshiro'), ('verus', 'xorshift'), ('verus', 'jitter'), ('verus', 'hc128'), ('verus', 'isaac'), ('verus', 'isaac64')], level='proof', trusted_base=TB_COMMON + TB_RC + TB_JIT,
     explanation='Verus built-in obligations (overflow, index, shift, division, callee preconditions incl. panics) in every function under contract; public functions require only the type invariant',
     assumptions=['Debug/serde formatting are not claimed panic-free'])
 reg('C16', [('verus', 'jitter')], level='proof', trusted_base=TB_COMMON + TB_JIT,
@@ -67,3 +67,9 @@ reg('C15', [('verus', 'jitter')], level='proof', trusted_base=TB_COMMON + TB_JIT
 reg('C02', [('verus', 'hc128')], level='proof', trusted_base=TB_COMMON + ['T5 assumed: le::read_u32_into (LE words); BlockRng word delivery is dependency code (Kani, thorough)'],
     explanation='step_p/step_q against Wu\'s update/output functions, generate == 16 keystream steps at the current counter (all 32 unrolled calls, both phases, counter wrap), sixteen_steps/init == key/IV expansion W followed by 1024 initialisation steps, from_seed == init of the LE words; bridge lemma code association order == Wu\'s g1/g2/h1/h2',
     assumptions=['Hc128Rng forwards to rand_core::block::BlockRng: words of each 16-word block are handed out in order (Kani harness on the real rand_core, thorough tier)'])
+
+reg('C03', [('verus', 'isaac'), ('verus', 'isaac64')], level='proof',
+    trusted_base=TB_COMMON + ['T4 Wrapping shim: local stand-in for core::num::Wrapping with verified operator impls (same operator semantics assumed; Kani cross-check)'],
+    explanation='ind/rngstep/generate against Jenkins\' isaac()/isaac64() (all eight unrolled rngstep call sites, both halves, results in reference hand-out order), mix/init against randinit (golden-ratio premix re-derived by compute), seed_from_u64 key layout and single pass',
+    assumptions=['from_seed (iterator zip) and from_rng/try_from_rng (unsafe raw-parts) are decided by Kani harnesses with a recording init stub (thorough tier)',
+                 'IsaacRng/Isaac64Rng forward to rand_core BlockRng/BlockRng64 (Kani, thorough tier)'])
